@@ -180,3 +180,27 @@ def c07(ck):
              key=lambda e: json.dumps([e.get("ev"), e.get("family"), e.get("len"), e.get("head")]))
     ck.assumptions += ["TotalAlloc measured in-process around hsms.Parse (GC cannot lower it)",
                        "asymptotic 'linear' is decided as a fixed numeric bound on the families run, plus the amortised invariant on the model"]
+
+
+# ---------------------------------------------------------------------------------------------- C14
+@check("C14", design_ref="4 C14",
+       technique="TLA+ specification of the HSMS control messages; TLC-enumerated constructor calls replayed through the real constructors; exhaustive (PType,SType) and session-id sweeps of the real code validated by TLC",
+       text="ControlMsg.tla states every control message kind as a function into the ten header bytes, the type as a function of (PType, SType) and the "
+            "request/response pairing; TLC checks it against the decoder grammar for all 65,536 pairs. 6,144 constructor-call cases enumerated by TLC "
+            "are executed with the real constructors; the real Type() is swept over all pairs and every constructor over all 65,536 session ids "
+            "(as intervals), response constructors are called with every kind of request, and random headers are built, encoded and decoded; TLC "
+            "judges every recorded result.",
+       note="a control message with SType 0 cannot be produced through the typed constructors; its Type() ('undefined' today) is a declared freedom")
+def c14(ck):
+    ck.rule.append("replay: 3 PTypes x 256 codes x 4 session ids x 2 system-byte words through all 8 constructors; sweeps: Type() on all 65,536 "
+                   "(PType,SType) pairs, all 65,536 session ids x 8 kinds x 3 codes; pairing: 3 response constructors x 11 request kinds; "
+                   "raw: random headers encoded and decoded; non-trivial = every event; distinct by content")
+    r = ck.model("MCControl", "MCControl", "MCControl.cfg", timeout=600)
+    table = write_cases(ck, r.cases, "ctrlcases.ndjson")
+    ev = ck.trace("replay", "ctrl-replay", ["-in", table], "TraceCodec", "TraceCodec.cfg", ["InvC14"])
+    ck.replayed += len(ev)
+    if ck.violations:
+        return
+    ck.exhaustive = True
+    ck.trace("ctrl", "ctrl", ["-n", q(ck, 1500, 30000)], "TraceCodec", "TraceCodec.cfg", ["InvC14", "InvC03"])
+    ck.assumptions += ["the harness compares the two session-id bytes with its loop variable when summarising the session-id sweep"]
